@@ -2,7 +2,8 @@
 """prints the prompt given to a fresh sub-agent for one property (only the property's own text)"""
 import json, sys
 pid = sys.argv[1]
-wt = f"/tmp/wt_{pid}"
+rnd = sys.argv[2] if len(sys.argv) > 2 else ""
+wt = f"/tmp/wt{rnd}_{pid}"
 for line in open("/verif/properties.jsonl"):
     p = json.loads(line)
     if p["id"] == pid:
@@ -18,7 +19,7 @@ Here is a semantic property of cogent3 that is supposed to hold:
   (It quantifies over: {p['quantifier']['text']})
   Code it is anchored in: {', '.join(p['anchors']['files'])}
 
-YOUR TASK: produce TWO independent, small changes to the library source under {wt}/src/cogent3 (never to tests/) each of which BREAKS this property while (a) the package still imports and (b) the existing test suite still passes. Each change should be realistic -- something a maintainer could plausibly introduce during a refactor, an optimisation or a bug fix -- and it must need something specific to manifest: an unusual input, a multi-step sequence of operations, a particular object state or history, a failure at a particular point, or two cooperating sites that each look fine on their own. Do not produce a change that ordinary use would expose at once. Prefer the two changes to be of different kinds and in different functions.
+YOUR TASK: produce TWO independent, small changes to the library source under {wt}/src/cogent3 (never to tests/) each of which BREAKS this property while (a) the package still imports and (b) the existing test suite still passes. Each change should be realistic -- something a maintainer could plausibly introduce during a refactor, an optimisation or a bug fix -- and it must need something specific to manifest: an unusual input, a multi-step sequence of operations, a particular object state or history, a failure at a particular point, or two cooperating sites that each look fine on their own. Do not produce a change that ordinary use would expose at once. Prefer the two changes to be of different kinds and in different functions. Look beyond the most central function of the property: every clause of the statement and every file it is anchored in is fair game, and less obvious code paths (option branches, helper functions, sibling classes, error paths) are preferred.
 
 For each change k in (1, 2) deliver, in {wt}/_seed/k/ :
   - patch.diff : `git diff` of the change (apply-able with `git apply` at the repository root). Only the change k, relative to the unchanged tree.
@@ -30,4 +31,4 @@ How to verify (you must actually do this):
   (Note: in this environment `pytest -n 4` given explicit test paths may report "no tests ran": run single test files without -n, and the full suite with -n 4 and no paths.)
   2. the test files for the touched modules pass:  cd {wt} && PYTHONPATH={wt}/src /venv/bin/python -m pytest -q -p no:cacheprovider -x tests/<relevant files>
   3. the full suite once per change:  cd {wt} && PYTHONPATH={wt}/src /venv/bin/python -m pytest -q -p no:cacheprovider -n 4 --timeout=900 2>&1 | tail -15   (several minutes). Seven tests that need the network fail on the unchanged tree as well (test_open_url*, test_open_url_compressed, test_line_based_url, test_get_app_tree_is_url): ignore exactly those. If your change makes any other test fail, pick a different change.
-When you finish, leave the worktree clean of source changes (git checkout -- src) but keep the _seed directory. Reply with a short summary of the two changes.""")
+If, while exploring, you find that the UNCHANGED code already violates the property for some input or history, also write {wt}/_seed/found.md with a minimal reproducer for each such case (this is a bonus; the two changes are still required).\nWhen you finish, leave the worktree clean of source changes (git checkout -- src) but keep the _seed directory. Reply with a short summary of the two changes.""")
